@@ -449,6 +449,13 @@ def run(M, c):
             agree = ea is not None and ea == ec
         if isinstance(D, P.Interval) or agree or (sg is not None and [sg[n] for n in NAMES] == cp):
             judge_add(M, "operators", x, cp, p1, "operator-plus" + ("-interval" if isinstance(D, P.Interval) else ""))
+            # the same `+` written with the Duration on the left (reflected operator)
+            try:
+                rp = D + x
+            except (OverflowError, ValueError):
+                M.count("out_of_range")
+            else:
+                judge_add(M, "operators", x, cp, rp, "operator-rplus" + ("-interval" if isinstance(D, P.Interval) else ""))
         tot = vals[6] * 10**6 + vals[7]
         if tot and c["via"] % 3 != 2:
             # the same amount with its sub-minute part handed to Duration() as milliseconds= (+ a microsecond rest, split
@@ -471,6 +478,17 @@ def run(M, c):
         e1 = date_model(x, [-v for v in cp])
         if e1 is not None:
             M.check("operators", fields(m1) == e1, "C04/operator-minus:date", "Date - duration differs from the calendar model", start=repr(x), d=repr(D), got=repr(m1))
+        e2 = date_model(x, cp)
+        if e2 is not None and not any(cp[4:]):
+            M.check("operators", type(p1) is type(x) and fields(p1) == e2, "C04/operator-plus:date", "Date + duration differs from the calendar model",
+                    start=repr(x), d=repr(D), got=repr(p1))
+            try:
+                rp = D + x                 # the Duration on the left (reflected operator)
+            except (OverflowError, ValueError):
+                M.count("out_of_range")
+            else:
+                M.check("operators", type(rp) is type(x) and fields(rp) == e2, "C04/operator-rplus:date", "duration + Date differs from the calendar model",
+                        start=repr(x), d=repr(D), got=repr(rp))
     if not isdate and c["via"] % 2 == 0:
         _implied_days(M, x, vals, key)
     ok = _same(m1, m2) and _same(m2, m3)
